@@ -1,6 +1,7 @@
 package xpath
 
 import (
+	"math"
 	"strconv"
 )
 
@@ -74,7 +75,7 @@ func cmpNumericString(t iterator, op string, m, n interface{}) bool {
 	b := n.(string)
 	num, err := strconv.ParseFloat(b, 64)
 	if err != nil {
-		panic(err)
+		num = math.NaN()
 	}
 	return cmpNumberNumberF(op, a, num)
 }
@@ -90,7 +91,7 @@ func cmpNumericNodeSet(t iterator, op string, m, n interface{}) bool {
 		}
 		num, err := strconv.ParseFloat(node.Value(), 64)
 		if err != nil {
-			panic(err)
+			num = math.NaN()
 		}
 		if cmpNumberNumberF(op, a, num) {
 			return true
@@ -109,7 +110,7 @@ func cmpNodeSetNumeric(t iterator, op string, m, n interface{}) bool {
 		}
 		num, err := strconv.ParseFloat(node.Value(), 64)
 		if err != nil {
-			panic(err)
+			num = math.NaN()
 		}
 		if cmpNumberNumberF(op, num, b) {
 			return true
@@ -165,7 +166,7 @@ func cmpStringNumeric(t iterator, op string, m, n interface{}) bool {
 	b := n.(float64)
 	num, err := strconv.ParseFloat(a, 64)
 	if err != nil {
-		panic(err)
+		num = math.NaN()
 	}
 	return cmpNumberNumberF(op, b, num)
 }
